@@ -1020,6 +1020,9 @@ class VN:
                 return self.block(s.body, [st])
             if c == FALSE:
                 return self.block(s.orelse, [st])
+            fr = c.as_fraction() if isinstance(c, T.Poly) else None
+            if fr is not None:  # truthiness of a numeric constant
+                return self.block(s.body if fr != 0 else s.orelse, [st])
             s1, s2 = st.fork(), st.fork()
             s1.conds.append(c)
             s2.conds.append(nc)
